@@ -2,7 +2,10 @@
 (* C20, part 2 - enumeration of archives x patterns and sanity of the specified result (design = contract).
 
    Init chooses an archive (a sequence of 1..MaxMembers members over the name universe `Names`, directory
-   members over `DirNames`) and a pattern; there are no transitions.  TLC checks on every archive x pattern
+   members over `DirNames`) and a HISTORY of MinReq..MaxReq requests (patterns) issued one after the other against
+   that archive - the real API keeps one temp dir per archive and reuses it for later requests, so a later request
+   finds the files of earlier ones (overlapping, nested, identical and disjoint patterns all occur in the
+   enumeration).  There are no transitions.  TLC checks on every archive x request
    that the specified result (ExtractDefs!Expected) is confined: every target is a non-empty path of plain
    names (so tempdir/target lies inside the temp dir), members that are absolute or climb above the root are
    never part of it, targets are pairwise distinct - and prints one scenario line per archive x pattern.
@@ -16,10 +19,11 @@ CONSTANTS Names,        \* set of file member names (component sequences)
           DirNames,     \* set of directory member names
           MaxMembers,
           GlobClasses,  \* subset of {"all","ext","dirp","exact","nofilter"}
+          MinReq, MaxReq,   \* length of the request history ("nofilter" = extract_to_dir without filter only as a single request)
           Emit
 
-VARIABLES ms, g
-vars == <<ms, g>>
+VARIABLES ms, gs
+vars == <<ms, gs>>
 
 FileMembers == {[name |-> n, dir |-> FALSE, pre |-> p] : n \in Names, p \in BOOLEAN}
 DirMembers == {[name |-> n, dir |-> TRUE, pre |-> FALSE] : n \in DirNames}
@@ -36,18 +40,21 @@ Archives == {a \in UNION {[1..k -> Members] : k \in 1..MaxMembers} : NoAlias(a)}
 Globs(a) == {[cls |-> c, k |-> 0] : c \in GlobClasses \ {"exact"}}
             \cup (IF "exact" \in GlobClasses THEN {[cls |-> "exact", k |-> k] : k \in {i \in 1..Len(a) : ~a[i].dir}} ELSE {})
 
+Histories(a) == {h \in UNION {[1..k -> Globs(a)] : k \in MinReq..MaxReq} :
+                    Len(h) > 1 => \A j \in 1..Len(h) : h[j].cls # "nofilter"}
 Init == /\ ms \in Archives
-        /\ g \in Globs(ms)
+        /\ gs \in Histories(ms)
 Next == UNCHANGED vars
 Spec == Init /\ [][Next]_vars
 
 \* ---- sanity of the specified result
-Confined == \A i \in Expected(g, ms) : Plain(Target(ms, i)) /\ Last(Target(ms, i)) \in FileTokens
-NeverHostile == \A i \in 1..Len(ms) : (ms[i].name[1] = "/" \/ ms[i].name[1] = "..") => i \notin Expected(g, ms)
-DistinctTargets == \A i, j \in Expected(g, ms) : i # j => Target(ms, i) # Target(ms, j)
-ExactMatchesItself == g.cls = "exact" => Matches(g, ms, g.k)
+\* everything that has to be in the temp dir after request j: the union over the requests so far
+ExpectedUpTo(j) == UNION {Expected(gs[q], ms) : q \in 1..j}
+Confined == \A i \in ExpectedUpTo(Len(gs)) : Plain(Target(ms, i)) /\ Last(Target(ms, i)) \in FileTokens
+NeverHostile == \A i \in 1..Len(ms) : (ms[i].name[1] = "/" \/ ms[i].name[1] = "..") => i \notin ExpectedUpTo(Len(gs))
+DistinctTargets == \A i, j \in ExpectedUpTo(Len(gs)) : i # j => Target(ms, i) # Target(ms, j)
+ExactMatchesItself == \A q \in 1..Len(gs) : gs[q].cls = "exact" => Matches(gs[q], ms, gs[q].k)
 
-EmitScn == Emit => PrintT(<<"SCN", ToJson([members |-> ms, glob |-> g,
-                                            expected |-> [i \in 1..Len(ms) |-> i \in Expected(g, ms)],
-                                            targets |-> [i \in 1..Len(ms) |-> IF i \in Expected(g, ms) THEN Target(ms, i) ELSE <<>>]])>>)
+EmitScn == Emit => PrintT(<<"SCN", ToJson([members |-> ms, globs |-> gs,
+                                            expected |-> [q \in 1..Len(gs) |-> [i \in 1..Len(ms) |-> i \in Expected(gs[q], ms)]]])>>)
 =============================================================================
